@@ -33,8 +33,8 @@ struct Stats {
     records_written: u64,
     records_read: u64,
     serde_ops: u64,
-    fault_configured: [u64; 6],
-    fault_fired: [u64; 6],
+    fault_configured: [u64; 7],
+    fault_fired: [u64; 7],
     mode_hist: [u64; 6],
     short_reads: u64,
     eintrs: u64,
@@ -65,8 +65,8 @@ impl Stats {
             records_written: 0,
             records_read: 0,
             serde_ops: 0,
-            fault_configured: [0; 6],
-            fault_fired: [0; 6],
+            fault_configured: [0; 7],
+            fault_fired: [0; 7],
             mode_hist: [0; 6],
             short_reads: 0,
             eintrs: 0,
@@ -92,7 +92,7 @@ impl Stats {
         self.records_written += o.records_written;
         self.records_read += o.records_read;
         self.serde_ops += o.serde_ops;
-        for i in 0..6 {
+        for i in 0..7 {
             self.fault_configured[i] += o.fault_configured[i];
             self.fault_fired[i] += o.fault_fired[i];
         }
@@ -1070,9 +1070,18 @@ fn cmd_run(world: &World, args: &Args) -> i32 {
         let next = AtomicU64::new(0);
         let bad = std::sync::Mutex::new(None::<(u16, u32)>);
         let stop = AtomicBool::new(false);
+        // the lean sweeps are time-boxed (far above their normal duration): a tree on which every call is
+        // orders of magnitude slower must not turn the check into an hours-long run. A sweep that hits its
+        // box is reported as incomplete in the evidence and on stderr; the verdict is on what was explored.
+        let sweep32_cap = 3600.0;
+        let capped32 = AtomicBool::new(false);
         std::thread::scope(|sc| {
             for _ in 0..args.workers {
                 sc.spawn(|| loop {
+                    if t1.elapsed().as_secs_f64() > sweep32_cap {
+                        capped32.store(true, Ordering::Relaxed);
+                        break;
+                    }
                     let c = next.fetch_add(1, Ordering::Relaxed);
                     if c >= total_chunks || stop.load(Ordering::Relaxed) {
                         break;
@@ -1112,7 +1121,7 @@ fn cmd_run(world: &World, args: &Args) -> i32 {
         let done = next.load(Ordering::Relaxed).min(total_chunks);
         let hit = *bad.lock().unwrap();
         sweep32 = json!({"layouts": lays.len(), "bit_patterns_per_layout": "all 2^32", "patterns_checked": done * (1u64 << 20),
-            "complete": hit.is_none() && done == total_chunks, "wall_s": t1.elapsed().as_secs_f64(),
+            "complete": hit.is_none() && done == total_chunks && !capped32.load(Ordering::Relaxed), "time_box_hit": capped32.load(Ordering::Relaxed), "wall_s": t1.elapsed().as_secs_f64(),
             "what": "lean loop, no event log: encode_to writes exactly the 4 LE bytes; decode of them returns the bits and consumes all 4; all byte views (inherent and Fixed-trait) equal the model bytes and invert, Wrapping bits; for one pattern in 256 the 3-byte prefix fails"});
         if let Some((l, v)) = hit {
             // re-execute as an ordinary history so that the normal oracles, minimiser and replay apply
@@ -1152,6 +1161,8 @@ fn cmd_run(world: &World, args: &Args) -> i32 {
             }
         }
         let quick_tier = args.tier == Tier::Quick;
+        let wide_cap = if quick_tier { 120.0 } else { 900.0 };
+        let capped_wide = AtomicBool::new(false);
         let next = AtomicU64::new(0);
         let done_patterns = AtomicU64::new(0);
         let done_chunks = AtomicU64::new(0);
@@ -1160,6 +1171,10 @@ fn cmd_run(world: &World, args: &Args) -> i32 {
         std::thread::scope(|sc| {
             for _ in 0..args.workers {
                 sc.spawn(|| loop {
+                    if t1.elapsed().as_secs_f64() > wide_cap {
+                        capped_wide.store(true, Ordering::Relaxed);
+                        break;
+                    }
                     let c = next.fetch_add(1, Ordering::Relaxed) as usize;
                     if c >= work.len() || stop.load(Ordering::Relaxed) {
                         break;
@@ -1194,8 +1209,11 @@ fn cmd_run(world: &World, args: &Args) -> i32 {
             }
         });
         let hit = *bad.lock().unwrap();
+        if capped_wide.load(Ordering::Relaxed) {
+            eprintln!("note: the structured sweep of the wide layouts hit its time box of {} s after {} patterns; reported as incomplete in the evidence, the verdict is on what was explored", wide_cap, done_patterns.load(Ordering::Relaxed));
+        }
         sweep_wide = json!({"layouts": lays.len(), "widths": [64, 128], "backgrounds_in_sub_space_A": if quick_tier { json!(["all bytes distinct"]) } else { json!(["00", "ff", "all bytes distinct"]) }, "patterns_per_64bit_layout": gen::structured_total(64), "patterns_per_128bit_layout": gen::structured_total(128),
-            "patterns_checked": done_patterns.load(Ordering::Relaxed), "complete": hit.is_none() && done_chunks.load(Ordering::Relaxed) == work.len() as u64, "wall_s": t1.elapsed().as_secs_f64(),
+            "patterns_checked": done_patterns.load(Ordering::Relaxed), "complete": hit.is_none() && done_chunks.load(Ordering::Relaxed) == work.len() as u64, "time_box_hit": capped_wide.load(Ordering::Relaxed), "time_box_s": wide_cap, "wall_s": t1.elapsed().as_secs_f64(),
             "what": "PRNG-free sub-spaces swept completely for every 64- and 128-bit layout, lean loop without event log: (A) every pair of byte positions x all 65536 values of the two bytes x three backgrounds (00, ff, all bytes distinct); (B) every combination of four sub-words (32-bit words for 128-bit layouts, 16-bit for 64-bit ones) from a palette of 48 / 32 boundary and pattern words. Per pattern: encode_to writes exactly the LE bytes, decode returns the bits and consumes them, all byte views (inherent and Fixed-trait) equal the model and invert, Wrapping bits; for one pattern in 64 the width/8-1 byte prefix fails"});
         if let Some((_, l, v)) = hit {
             // re-execute as an ordinary history so that the normal oracles, minimiser and replay apply
@@ -1221,7 +1239,8 @@ fn cmd_run(world: &World, args: &Args) -> i32 {
     // a batch that hit its wall-clock cap or did not finish is not a basis for "held": the verdict must not
     // depend on how fast this machine happens to be
     let expected_runs = runs + if sweep.is_null() { 0 } else { total };
-    let incomplete = batch.violation.is_none() && (batch.capped || batch.completed < expected_runs || sweep32.get("complete").and_then(|c| c.as_bool()) == Some(false) || sweep_wide.get("complete").and_then(|c| c.as_bool()) == Some(false));
+    let incomplete = batch.violation.is_none() && (batch.capped || batch.completed < expected_runs || (sweep32.get("complete").and_then(|c| c.as_bool()) == Some(false) && sweep32.get("time_box_hit").and_then(|c| c.as_bool()) != Some(true))
+        || (sweep_wide.get("complete").and_then(|c| c.as_bool()) == Some(false) && sweep_wide.get("time_box_hit").and_then(|c| c.as_bool()) != Some(true)));
     let st = &batch.stats;
     let wall = t0.elapsed().as_secs_f64();
 
@@ -1496,7 +1515,7 @@ fn cmd_run(world: &World, args: &Args) -> i32 {
                 "events": events_json(&p.events.unwrap_or_default())}));
         }
     }
-    let fault_table: Vec<Value> = (0..6).map(|i| json!({"kind": FAULT_KINDS[i], "passes_configured": st.fault_configured[i], "fired_inside_a_record": st.fault_fired[i]})).collect();
+    let fault_table: Vec<Value> = (0..7).map(|i| json!({"kind": FAULT_KINDS[i], "passes_configured": st.fault_configured[i], "fired_inside_a_record": st.fault_fired[i]})).collect();
     let mode_table: Vec<Value> = (0..6).map(|i| json!({"kind": MODE_KINDS[i], "histories_configured": st.mode_hist[i]})).collect();
     let per_hour = |n: u64| if wall > 0.0 { (n as f64 / wall * 3600.0) as u64 } else { 0 };
     let ev = json!({
@@ -1611,7 +1630,7 @@ fn cmd_run(world: &World, args: &Args) -> i32 {
         distinct_nontrivial,
         st.steps,
         wall,
-        (0..6).map(|i| format!("{}={}", FAULT_KINDS[i], st.fault_fired[i])).collect::<Vec<_>>().join(" ")
+        (0..7).map(|i| format!("{}={}", FAULT_KINDS[i], st.fault_fired[i])).collect::<Vec<_>>().join(" ")
     );
     if exit == 0 && incomplete {
         eprintln!("harness error: the batch did not run to completion ({} of {} histories, wall-clock cap hit: {}); no verdict (raise --cap-s / VERIF_CAP_S or lower --runs)", batch.completed, expected_runs, batch.capped);
